@@ -4,7 +4,7 @@
    silently falls back to its private in-process bucket although Redis is reachable.
    [pinned_script] is the translator's output for that version (lua2coq.py, verbatim). *)
 From Coq Require Import List ZArith String QArith Bool.
-From GZ Require Import Lib.RedisStore C03.Model C03.Monitor.
+From GZ Require Import Lib.RedisStore C03.Model C03.Monitor C03.MonitorN.
 Import ListNotations.
 Open Scope string_scope.
 Open Scope Z_scope.
@@ -196,4 +196,25 @@ Theorem fast_path_lost_wakeup_refuted :
   m_alive (mrun true s [AMon; AMon; AMon; AMon; AReq 0%nat; AReq 0%nat; AReq 0%nat; AMon; AMon; AMon; AMon]) = false /\
   (* the same schedule on HEAD ends with the instance back on the store *)
   m_alive (mrun false (minit 1%nat) (lost_wakeup ++ [AMon; AMon; AMon; AMon])) = true.
+Proof. vm_compute. repeat split; reflexivity. Qed.
+
+(* ------------------------------------------------------------------ seeded C03-7: one monitor per store
+   The shared monitor (MonitorN.shstep) leaves in two separately locked steps: it TAKES the waiter
+   list, wakes the taken limiters, and only then removes itself from the registry.  Three limiters
+   on one store: 0 and 1 wait; the store comes back, the monitor takes [0; 1] and wakes 0; the
+   store fails again for a request of limiter 2, which registers with the monitor that is still in
+   the registry - in a list nobody reads again; the monitor wakes 1 and unregisters.  Limiter 2:
+   redisAlive = 0, monitorStarted = true, no monitor - for ever (no step changes it), with the store
+   reachable.  HEAD (one monitor per limiter) is proved free of this for every limiter
+   independently of the others: Props.each_limiter_never_stuck. *)
+Definition orphaned_waiter : list shaction :=
+  [ShDown; ShFail 0%nat; ShFail 1%nat; ShUp; ShMon (* takeWaiters *); ShMon (* wakes 0 *);
+   ShDown; ShFail 2%nat; ShMon (* wakes 1 *); ShMon (* unregisters *); ShUp].
+Theorem shared_monitor_orphans_a_waiter_refuted :
+  let s := shrun (shinit 3) orphaned_waiter in
+  sh_up s = true /\ sh_mon s = ShNone /\
+  sh_lims s = [mkShL true false; mkShL true false; mkShL false true] /\
+  (* nothing brings limiter 2 back: the monitor is gone, and its own requests do not even reach
+     startMonitor (redisAlive = 0), whether the store is up or down *)
+  shrun s [ShMon; ShFail 2%nat; ShDown; ShFail 2%nat; ShMon; ShUp; ShMon; ShMon] = s.
 Proof. vm_compute. repeat split; reflexivity. Qed.
